@@ -386,7 +386,8 @@ class Escape:
                 add("UnicodeDecodeError", "strict decode of bytes that are not provably text")
             if a in ("pop", "popleft") and self._container_chain(recv):
                 if a == "popleft" or not call.args or (len(call.args) == 1 and isinstance(call.args[0], ast.Constant) and isinstance(call.args[0].value, int)):
-                    if not self._nonempty_guard(f, call, recv):
+                    kidx = call.args[0].value if call.args and a == "pop" else 0
+                    if not self._nonempty_guard(f, call, recv, kidx):
                         add("IndexError", f"{a}() on a container that may be empty", [[(recv, True)]])
                 elif len(call.args) == 1 and not call.keywords and not self._is_list(fr, recv):
                     if not self._member_guard(f, call, recv, call.args[0]):
@@ -461,6 +462,19 @@ class Escape:
                 if any(c == s["through"] for c in it.chain):
                     self.used_suppressions.add(i)
                     return True
+            if s.get("kind") == "drop_after_early_return" and s["in"] == fr.ref and norm(st).startswith(s["stmt"]):
+                # sources of the callee that lie behind its `if <test>: ...; return` cannot run when the test holds
+                cal = self.prog.by_ref.get(s["callee"])
+                if cal is not None and it.origin.startswith(s["callee"] + ": "):
+                    cf = self.fn(cal)
+                    otxt = it.origin[len(s["callee"]) + 2 :]
+                    tests = [x for x in cf.node.body if isinstance(x, ast.If) and norm(x.test) == s["test"] and x.body and isinstance(x.body[-1], ast.Return) and not x.orelse]
+                    if tests:
+                        behind = [x for x in cf.stmts() if norm(x)[:110] == otxt and cf.cfg.dominates(cf.cfg.fedge[tests[0]], cf.cfg.begin.get(x, -1))]
+                        inside_branch = [x for x in cf.stmts() if norm(x)[:110] == otxt and any(x is b or _within(x, b) for b in tests[0].body)]
+                        if behind and not inside_branch:
+                            self.used_suppressions.add(i)
+                            return True
         return False
 
     def _arg_for(self, cal: FuncRef, call: ast.Call, pname: str):
@@ -640,7 +654,42 @@ class Escape:
         for a, p in atoms:
             if p and (a == f"len({text}) > 0" or a.startswith(f"len({text}) == ") or a == f"len({text}) >= 1"):
                 return True
+        # `obj.<field>` is non-empty when `len(obj) > K` (K >= 0) holds and some class defines
+        # __len__ as len(self.<field>)
+        if "." in text:
+            base, field = text.rsplit(".", 1)
+            if field in self._len_fields():
+                for a, p in atoms:
+                    if p and a.startswith(f"len({base}) > "):
+                        k = self._int_const(a[len(f"len({base}) > ") :])
+                        if k is not None and k >= 0:
+                            return True
         return False
+
+    def _len_fields(self) -> set:
+        if not hasattr(self, "_lenf"):
+            self._lenf = set()
+            for fr in self.prog.funcs.values():
+                if fr.node.name == "__len__" and getattr(fr.node, "_class", None) is not None:
+                    rets = [st for st in stmts_of(fr.node) if isinstance(st, ast.Return) and st.value is not None]
+                    if len(rets) == 1 and isinstance(rets[0].value, ast.Call) and call_name(rets[0].value) == "len" and rets[0].value.args:
+                        a = rets[0].value.args[0]
+                        if isinstance(a, ast.Attribute) and isinstance(a.value, ast.Name) and a.value.id == "self":
+                            self._lenf.add(a.attr)
+        return self._lenf
+
+    def _int_const(self, text: str):
+        """integer value of a literal or of a module-level constant of the package"""
+        text = text.strip()
+        if text.isdigit():
+            return int(text)
+        if text.isidentifier():
+            for m in self.repo.modules.values():
+                if text in m.assigns:
+                    v = self.repo.const(m, m.assigns[text])
+                    if isinstance(v, int) and not isinstance(v, bool):
+                        return v
+        return None
 
     # ---- S5 helpers -----------------------------------------------------------------------------
     def _ascii_safe(self, recv) -> bool:
@@ -658,9 +707,19 @@ class Escape:
         t = (self.prog.expr_type(fr, recv) or "").split("[")[0].split(".")[-1]
         return t in ("list", "List", "deque", "Deque")
 
-    def _nonempty_guard(self, f: Fn, node, recv) -> bool:
+    def _nonempty_guard(self, f: Fn, node, recv, kidx: int = 0) -> bool:
+        """the container has more than kidx elements (kidx >= 0: index that pop() will use)"""
         txt = f.expand(recv, 2)
         raw = norm(recv)
+        for a, p in f.guard_atoms_x(node) + f.guard_atoms(node):
+            if p:
+                for t in (txt, raw):
+                    if a.startswith(f"len({t}) > "):
+                        k = self._int_const(a[len(f"len({t}) > ") :])
+                        if k is not None and k >= max(kidx, 0):
+                            return True
+        if kidx > 0:
+            return False
         for a, p in f.guard_atoms_x(node) + f.guard_atoms(node):
             if p and (a in (txt, raw) or a in (f"len({txt}) > 0", f"len({raw}) > 0")):
                 return True
@@ -945,6 +1004,15 @@ class Escape:
                     if isinstance(x, ast.Call):
                         n += 1
         return n
+
+
+def _within(node, root) -> bool:
+    n = node
+    while n is not None:
+        if n is root:
+            return True
+        n = getattr(n, "_parent", None)
+    return False
 
 
 def _static_truth(e):
